@@ -146,6 +146,14 @@ pub fn shrink_graph_spec(g: &GraphSpec) -> Vec<GraphSpec> {
         x.min_count = 1;
         out.push(x);
     }
+    // a smaller k-mer type (a check that does not instantiate it rejects the candidate)
+    for kt in ["Kmer4", "Kmer6", "Kmer8", "Kmer16"] {
+        if k_of(kt) < k {
+            let mut x = g.clone();
+            x.ktype = kt.to_string();
+            out.push(x);
+        }
+    }
     out
 }
 
